@@ -692,19 +692,21 @@ func (tree *MutableTree) GetVersioned(key []byte, version int64) ([]byte, error)
 			}
 
 			if isFastCacheEnabled {
-				fastNode, _ := tree.ndb.GetFastNode(key)
-				if fastNode == nil && version == tree.ndb.getCachedLatestVersion() {
+				fastNode, err := tree.ndb.GetFastNode(key)
+				// a failed index lookup proves nothing about the key: fall back to the tree
+				if err == nil && fastNode == nil && version == tree.ndb.getCachedLatestVersion() {
 					return nil, nil
 				}
 
-				if fastNode != nil && fastNode.GetVersionLastUpdatedAt() <= version {
+				if err == nil && fastNode != nil && fastNode.GetVersionLastUpdatedAt() <= version {
 					return fastNode.GetValue(), nil
 				}
 			}
 		}
 		t, err := tree.GetImmutable(version)
 		if err != nil {
-			return nil, nil
+			// the version exists (checked above), so this is a storage failure, not an absence
+			return nil, err
 		}
 		value, err := t.Get(key)
 		if err != nil {
